@@ -6,6 +6,8 @@ import contextlib
 import sys
 import traceback
 
+from . import env as _env
+
 
 def snapshot_arrays(args, kwargs):
     """`before` hook: copies of the ndarray arguments (index -> copy), so that the oracle judges the values the callee was
@@ -104,7 +106,11 @@ class Probe:
             if before is not None:
                 probe.busy += 1
                 try:
-                    token = before(args, kwargs)
+                    if _env.ACTIVE:
+                        with _env.neutral():
+                            token = before(args, kwargs)
+                    else:
+                        token = before(args, kwargs)
                 except Exception:
                     probe.errors.append((label, "before", traceback.format_exc()))
                 finally:
@@ -115,7 +121,11 @@ class Probe:
                 if after is not None:
                     probe.busy += 1
                     try:
-                        after(args, kwargs, token, None, ex)
+                        if _env.ACTIVE:
+                            with _env.neutral():
+                                after(args, kwargs, token, None, ex)
+                        else:
+                            after(args, kwargs, token, None, ex)
                     except Exception:
                         probe.errors.append((label, "after-raise", traceback.format_exc()))
                     finally:
@@ -124,7 +134,11 @@ class Probe:
             if after is not None:
                 probe.busy += 1
                 try:
-                    after(args, kwargs, token, result, None)
+                    if _env.ACTIVE:
+                        with _env.neutral():
+                            after(args, kwargs, token, result, None)
+                    else:
+                        after(args, kwargs, token, result, None)
                 except Exception:
                     probe.errors.append((label, "after", traceback.format_exc()))
                 finally:
@@ -159,7 +173,8 @@ class Probe:
             original.fset(obj, value)
             probe.busy += 1
             try:
-                after(obj, value)
+                with _env.neutral():
+                    after(obj, value)
             except Exception:
                 probe.errors.append((label, "setter", traceback.format_exc()))
             finally:
